@@ -114,7 +114,7 @@ theorem openFile_wb_vals {fs fs' : Fs} {p : Path} {c : Bytes} {pos : Nat} (h : o
   · cases hl : lookup fs p with
     | none =>
       rw [hl] at h
-      simp only at h
+      simp only [true_or, if_true] at h
       split at h
       · injection h with h
         injection h with h1 h2
